@@ -181,6 +181,7 @@ func Open(opt Options) (*DB, error) {
 	}
 
 	if ok := filesystem.PathIsExist(db.opt.Dir); !ok {
+		verifOp("mkdir", db.opt.Dir, 0, 0, nil)
 		if err := os.MkdirAll(db.opt.Dir, os.ModePerm); err != nil {
 			return nil, err
 		}
@@ -193,6 +194,7 @@ func Open(opt Options) (*DB, error) {
 	if opt.EntryIdxMode == HintBPTSparseIdxMode {
 		bptRootIdxDir := db.opt.Dir + "/" + bptDir + "/root"
 		if ok := filesystem.PathIsExist(bptRootIdxDir); !ok {
+			verifOp("mkdir", bptRootIdxDir, 0, 0, nil)
 			if err := os.MkdirAll(bptRootIdxDir, os.ModePerm); err != nil {
 				return nil, err
 			}
@@ -200,6 +202,7 @@ func Open(opt Options) (*DB, error) {
 
 		bptTxIDIdxDir := db.opt.Dir + "/" + bptDir + "/txid"
 		if ok := filesystem.PathIsExist(bptTxIDIdxDir); !ok {
+			verifOp("mkdir", bptTxIDIdxDir, 0, 0, nil)
 			if err := os.MkdirAll(bptTxIDIdxDir, os.ModePerm); err != nil {
 				return nil, err
 			}
@@ -207,6 +210,7 @@ func Open(opt Options) (*DB, error) {
 
 		bucketMetaDir := db.opt.Dir + "/meta/bucket"
 		if ok := filesystem.PathIsExist(bucketMetaDir); !ok {
+			verifOp("mkdir", bucketMetaDir, 0, 0, nil)
 			if err := os.MkdirAll(bucketMetaDir, os.ModePerm); err != nil {
 				return nil, err
 			}
@@ -366,6 +370,11 @@ func (db *DB) Merge() error {
 			return err
 		}
 
+		if vf := verifOp("remove", db.getDataPath(int64(pendingMergeFId)), 0, 0, nil); vf != nil {
+			db.isMerging = false
+			f.rwManager.Close()
+			return vf.Err
+		}
 		if err := os.Remove(db.getDataPath(int64(pendingMergeFId))); err != nil {
 			db.isMerging = false
 			f.rwManager.Close()
@@ -567,6 +576,7 @@ func (db *DB) buildBPTreeRootIdxes(dataFileIds []int) error {
 	for i := 0; i < len(dataFileIds[0:dataFileIdsSize-1]); i++ {
 		off = 0
 		path := db.getBPTRootPath(int64(dataFileIds[i]))
+		verifOp("open", path, 0, 0, nil)
 		fd, err := os.OpenFile(path, os.O_CREATE|os.O_RDWR, 0644)
 		if err != nil {
 			return err
